@@ -338,4 +338,156 @@ theorem lowerC_idem (c : Nat) : lowerC (lowerC c) = lowerC c := by
     rw [if_pos h, if_neg h2]
   · rw [if_neg h, if_neg h]
 
+/-! ### symmetry of `==` and `equality_test` on scalars, lists and tuples (induction on size) -/
+
+mutual
+/-- values built from scalars (ASCII strings), lists and tuples only -/
+def seqOnly : PyVal → Bool
+  | .list xs => seqOnlyList xs
+  | .tuple xs => seqOnlyList xs
+  | .set _ => false
+  | .dict _ _ => false
+  | .str s => isAscii s
+  | _ => true
+def seqOnlyList : List PyVal → Bool
+  | [] => true
+  | x :: xs => seqOnly x && seqOnlyList xs
+end
+
+theorem seqOnlyList_mem (xs : List PyVal) (h : seqOnlyList xs = true) : ∀ x ∈ xs, seqOnly x = true := by
+  induction xs with
+  | nil => intro x hx; cases hx
+  | cons y ys ih =>
+    simp only [seqOnlyList, Bool.and_eq_true] at h
+    intro x hx
+    cases hx with
+    | head => exact h.1
+    | tail _ hm => exact ih h.2 x hm
+
+theorem pyEqList_symm (xs ys : List PyVal) (h : ∀ x ∈ xs, ∀ y ∈ ys, pyEq x y = pyEq y x) :
+    pyEqList xs ys = pyEqList ys xs := by
+  induction xs generalizing ys with
+  | nil => cases ys <;> simp [pyEqList]
+  | cons x xs ih =>
+    cases ys with
+    | nil => simp [pyEqList]
+    | cons y ys =>
+      simp only [pyEqList]
+      rw [h x (List.mem_cons_self) y (List.mem_cons_self)]
+      rw [ih ys (fun a ha b hb => h a (List.mem_cons_of_mem _ ha) b (List.mem_cons_of_mem _ hb))]
+
+theorem eqSeq_symm (ex : Bool) (d : Option (Int × Nat)) (xs ys : List PyVal)
+    (h : ∀ x ∈ xs, ∀ y ∈ ys, eqTest ex d x y = eqTest ex d y x) :
+    eqSeq ex d xs ys = eqSeq ex d ys xs := by
+  induction xs generalizing ys with
+  | nil => cases ys <;> simp [eqSeq]
+  | cons x xs ih =>
+    cases ys with
+    | nil => simp [eqSeq]
+    | cons y ys =>
+      simp only [eqSeq]
+      rw [h x (List.mem_cons_self) y (List.mem_cons_self)]
+      rw [ih ys (fun a ha b hb => h a (List.mem_cons_of_mem _ ha) b (List.mem_cons_of_mem _ hb))]
+
+theorem eqTest_list (ex : Bool) (d : Option (Int × Nat)) (xs ys : List PyVal) :
+    eqTest ex d (.list xs) (.list ys) =
+      if pyEq (.list xs) (.list ys) then .ok true
+      else if xs.length != ys.length then .ok false else eqSeq ex d xs ys := by
+  simp [eqTest, isFloat, isIntOrFloat, num?]
+
+theorem eqTest_tuple (ex : Bool) (d : Option (Int × Nat)) (xs ys : List PyVal) :
+    eqTest ex d (.tuple xs) (.tuple ys) =
+      if pyEq (.tuple xs) (.tuple ys) then .ok true
+      else if xs.length != ys.length then .ok false else eqSeq ex d xs ys := by
+  simp [eqTest, isFloat, isIntOrFloat, num?]
+
+theorem pyEq_symm_aux : ∀ (n : Nat) (a e : PyVal), sizeOf a + sizeOf e ≤ n →
+    seqOnly a = true → seqOnly e = true → pyEq a e = pyEq e a := by
+  intro n
+  induction n with
+  | zero =>
+    intro a e h
+    cases a <;> simp at h
+  | succ n ih =>
+    intro a e hsz ha he
+    have seqCase : ∀ xs ys : List PyVal, sizeOf xs + sizeOf ys ≤ n → seqOnlyList xs = true →
+        seqOnlyList ys = true → pyEqList xs ys = pyEqList ys xs := by
+      intro xs ys hs hxs hys
+      refine pyEqList_symm xs ys (fun x hx y hy => ?_)
+      have h1 := List.sizeOf_lt_of_mem hx
+      have h2 := List.sizeOf_lt_of_mem hy
+      exact ih x y (by omega) (seqOnlyList_mem xs hxs x hx) (seqOnlyList_mem ys hys y hy)
+    cases a <;> cases e <;> first
+      | (simp [seqOnly] at ha; done)
+      | (simp [seqOnly] at he; done)
+      | (simp [pyEq, num?, numEq]; done)
+      | (simp [pyEq, num?, numEq]; exact BEq.comm)
+      | skip
+    case list.list xs ys =>
+      simp only [pyEq]
+      simp only [seqOnly] at ha he
+      simp only [PyVal.list.sizeOf_spec] at hsz
+      exact seqCase xs ys (by omega) ha he
+    case tuple.tuple xs ys =>
+      simp only [pyEq]
+      simp only [seqOnly] at ha he
+      simp only [PyVal.tuple.sizeOf_spec] at hsz
+      exact seqCase xs ys (by omega) ha he
+
+theorem pyEq_symm (a e : PyVal) (ha : seqOnly a = true) (he : seqOnly e = true) : pyEq a e = pyEq e a :=
+  pyEq_symm_aux _ a e (Nat.le_refl _) ha he
+
+theorem eqTest_num_symm (ex : Bool) (d : Int × Nat) (a e : PyVal) (x y : Int × Nat)
+    (ha : num? a = some x) (he : num? e = some y) : eqTest ex (some d) a e = eqTest ex (some d) e a := by
+  rw [eqTest_num ex d a e x y ha he, eqTest_num ex d e a y x he ha]
+  rw [numClose_comm y x d, numEq_comm y x, Bool.or_comm (isFloat e) (isFloat a)]
+
+theorem eqTest_str_symm (ex : Bool) (d : Option (Int × Nat)) (sa se : List Nat) :
+    eqTest ex d (.str sa) (.str se) = eqTest ex d (.str se) (.str sa) := by
+  rw [eqTest_str, eqTest_str, Bool.and_comm (isAscii sa) (isAscii se)]
+  have h1 : (sa == se) = (se == sa) := BEq.comm
+  have h2 : (normStr se == normStr sa) = (normStr sa == normStr se) := BEq.comm
+  rw [h1, h2]
+
+theorem eqTest_symm_aux (ex : Bool) (d : Int × Nat) : ∀ (n : Nat) (a e : PyVal), sizeOf a + sizeOf e ≤ n →
+    seqOnly a = true → seqOnly e = true → eqTest ex (some d) a e = eqTest ex (some d) e a := by
+  intro n
+  induction n with
+  | zero =>
+    intro a e h
+    cases a <;> simp at h
+  | succ n ih =>
+    intro a e hsz ha he
+    have hpe := pyEq_symm a e ha he
+    have seqCase : ∀ xs ys : List PyVal, sizeOf xs + sizeOf ys ≤ n → seqOnlyList xs = true →
+        seqOnlyList ys = true → eqSeq ex (some d) xs ys = eqSeq ex (some d) ys xs := by
+      intro xs ys hs hxs hys
+      refine eqSeq_symm ex (some d) xs ys (fun x hx y hy => ?_)
+      have h1 := List.sizeOf_lt_of_mem hx
+      have h2 := List.sizeOf_lt_of_mem hy
+      exact ih x y (by omega) (seqOnlyList_mem xs hxs x hx) (seqOnlyList_mem ys hys y hy)
+    cases a <;> cases e <;> first
+      | (simp [seqOnly] at ha; done)
+      | (simp [seqOnly] at he; done)
+      | (rw [eqTest.eq_def, eqTest.eq_def]; simp [isFloat, isIntOrFloat, num?, pyEq, numEq]; done)
+      | (rw [eqTest.eq_def, eqTest.eq_def]; simp [isFloat, isIntOrFloat, num?, pyEq, numEq]; exact BEq.comm)
+      | rfl
+      | exact eqTest_num_symm ex d _ _ _ _ rfl rfl
+      | exact eqTest_str_symm ex (some d) _ _
+      | skip
+    case list.list xs ys =>
+      rw [eqTest_list, eqTest_list, hpe]
+      have hl : (xs.length != ys.length) = (ys.length != xs.length) := by
+        simp only [bne, show (xs.length == ys.length) = (ys.length == xs.length) from BEq.comm]
+      simp only [seqOnly] at ha he
+      simp only [PyVal.list.sizeOf_spec] at hsz
+      rw [hl, seqCase xs ys (by omega) ha he]
+    case tuple.tuple xs ys =>
+      rw [eqTest_tuple, eqTest_tuple, hpe]
+      have hl : (xs.length != ys.length) = (ys.length != xs.length) := by
+        simp only [bne, show (xs.length == ys.length) = (ys.length == xs.length) from BEq.comm]
+      simp only [seqOnly] at ha he
+      simp only [PyVal.tuple.sizeOf_spec] at hsz
+      rw [hl, seqCase xs ys (by omega) ha he]
+
 end Pedal.Assertions
